@@ -39,7 +39,7 @@ class Hub(object):
         # Dictionary of subscriptions
         self._subscriptions = WeakKeyDictionary()
 
-        self._paused = False
+        self._paused = 0
         self._queue = []
 
         self._ignore = Counter()
@@ -199,15 +199,19 @@ class Hub(object):
 
     @contextmanager
     def delay_callbacks(self):
-        self._paused = True
+        # Delay blocks can be nested (including by handlers that are called
+        # while the queue is being flushed), so we count how many are open
+        # and only deliver the queued messages once the outermost one closes.
+        self._paused += 1
         try:
             yield
         finally:
-            self._paused = False
-            # TODO: could de-duplicate messages here
-            for message in self._queue:
-                self.broadcast(message)
-            self._queue = []
+            self._paused -= 1
+            if self._paused == 0:
+                # TODO: could de-duplicate messages here
+                queue, self._queue = self._queue, []
+                for message in queue:
+                    self.broadcast(message)
 
     def broadcast(self, message):
         """Broadcasts a message to all subscribed objects.
